@@ -748,7 +748,7 @@ fn gen_run(r: &mut Rng, nf: usize, variant: u64) -> Vec<FileD> {
         let mut evs = Vec::new();
         for k in 0..n_ev {
             // undecodable main events at the start, in the middle and at the end of files, by plan
-            let force = match (variant / 6 % 4, k) {
+            let force = match (variant % 4, k) {
                 (1, 0) => Some(r.pick(&KINDS_BAD)),
                 (2, k) if k + 1 == n_ev => Some(r.pick(&KINDS_BAD)),
                 (3, k) if k == 0 || k + 1 == n_ev || k == n_ev / 2 => Some(r.pick(&KINDS_BAD)),
@@ -760,7 +760,7 @@ fn gen_run(r: &mut Rng, nf: usize, variant: u64) -> Vec<FileD> {
         let ext = if r.chance(1, 2) { "mid" } else { "lz4" };
         fs.push(FileD { run, t0: t0s[i], t1, ext: ext.to_string(), evs });
     }
-    if variant / 24 % 5 == 4 && nf > 0 {
+    if variant % 7 == 6 && nf > 0 {
         // every main event of the run undecodable
         for f in fs.iter_mut() {
             for e in f.evs.iter_mut() {
@@ -906,7 +906,7 @@ pub fn run(tier: &str, seed: u64, s: &mut Sink) {
         emit_run(s, fs, &perms, "fixed", true);
     }
     // (number of files, number of runs)
-    let plan: &[(usize, usize)] = if thorough { &[(1, 12), (2, 10), (3, 8), (4, 5)] } else { &[(1, 2), (2, 2), (3, 2), (4, 1)] };
+    let plan: &[(usize, usize)] = if thorough { &[(1, 40), (2, 30), (3, 20), (4, 12)] } else { &[(1, 2), (2, 2), (3, 2), (4, 1)] };
     let mut variant = r.below(1000);
     let mut last_good: Vec<Vec<FileD>> = Vec::new();
     for &(nf, count) in plan {
